@@ -342,6 +342,42 @@ def check_thermal(rule, db, cfgname):
         rule.bad(site, t.loc(), "MatsubaraSpacing is %s, expected i*pi/beta" % got, cfgname)
 
 
+def decision_point(g, node):
+    """CFG position at which it is decided whether `node` executes: the first thing evaluated by the outermost control
+    statement (if / loop / switch) that encloses it inside the function body; the node's own position when it is unconditional."""
+    top = None
+    for a in g.ancestors(node):
+        if g.nodes[a]["k"] in ("if", "for", "while", "do", "forrange", "switch"):
+            top = a
+    if top is None:
+        return g.cfg.pos1(node)
+    n = g.nodes[top]
+    for fld_ in ("init", "range", "c", "body"):
+        if n.get(fld_) is not None:
+            p_ = g.cfg.pos_cond(n[fld_])
+            if p_ is not None:
+                return p_
+    return g.cfg.pos1(node)
+
+
+def returns_skipping(g, ctx, update_node, is_exempt=None):
+    """value-returning `return` statements that can be reached without passing the decision point of `update_node`
+    (an early return that leaves out a contribution), except those for which is_exempt(return node) holds"""
+    dp = decision_point(g, update_node)
+    out = []
+    if dp is None:
+        return out
+    for r, m in g.walk(g.body):
+        if m["k"] == "return" and m.get("sub") is not None:
+            pr = g.cfg.pos1(r)
+            if pr is None or g.cfg.dominates(dp, pr):
+                continue
+            if is_exempt is not None and is_exempt(r):
+                continue
+            out.append(r)
+    return out
+
+
 def check_sum_over_parts(rule, db, cfgname, qn, nparams, ptypes, part_call_args, extra_ok=None):
     """X::operator()(z) / of_tau: returns 0 iff Vanishing, otherwise += over ALL parts of part(args)."""
     g = db.fn(qn, ptypes=ptypes)
@@ -407,8 +443,21 @@ def check_sum_over_parts(rule, db, cfgname, qn, nparams, ptypes, part_call_args,
                 raise AnalysisBroken("%s: the argument %s is modified before it is passed to the parts (transformation not analysed)" % (qn, p_["n"]))
     # vanishing: return 0 exactly under Vanishing
     van = fld(cls + "::Vanishing")
+    zero_keys = (("lit", 0), ("ctor", "std::complex", ("lit", 0), ("lit", 0)), ("ctor", "std::complex", ("lit", 0)))
+    from pv.symenv import env_at as _env_at, value_key as _value_key
+    _envs = _env_at(g, ctx)
+
+    def returns_zero(r_):
+        try:
+            return _value_key(g, ctx, _envs, g.nodes[r_]["sub"], r_) in zero_keys
+        except AnalysisBroken:
+            return False
+    if so["status"] == "ok":
+        # no value is returned before the sum was taken, except the 0 of a vanishing function (decided just below)
+        for r in returns_skipping(g, ctx, so["acc"], returns_zero):
+            probs.append("the value returned at line %s does not include the sum over the parts (early return)" % g.loc(r).rsplit(":", 1)[-1])
     for r, m in g.walk(g.body):
-        if m["k"] == "return" and m.get("sub") is not None and ctx.key(m["sub"]) in (("lit", 0), ("ctor", "std::complex", ("lit", 0), ("lit", 0)), ("ctor", "std::complex", ("lit", 0))):
+        if m["k"] == "return" and m.get("sub") is not None and returns_zero(r) and not (so["status"] == "ok" and g.cfg.dominates(decision_point(g, so["acc"]), g.cfg.pos1(r))):
             fa = at.get(g.cfg.pos1(r), frozenset())
             if ("true", van) not in fa:
                 probs.append("returns 0 on a path where the function is not known to vanish")
